@@ -161,14 +161,19 @@ Definition expected_bodies : list string :=
    "overwriteWith = apiKey; if slices.Contains(a.ReceiveKeys, apiKey) || (keyID != """" && slices.Contains(a.ReceiveKeyIDs, keyID)) { overwriteWith = a.SendKey }";
    "overwriteWith = apiKey; if apiKey == """" { overwriteWith = a.SendKey }";
    "if apiKey != """" { overwriteWith = apiKey if !slices.Contains(a.ReceiveKeys, apiKey) && !(keyID != """" && slices.Contains(a.ReceiveKeyIDs, keyID)) { overwriteWith = a.SendKey } }"]%string.
-Definition expected_accept_cond : string :=
+(* the decision structure of IsAccepted as a SET of (guards => outcome), independent of nesting / early returns *)
+Definition accept_cond_text : string :=
   "(len(a.SendKey) > 0 && key == a.SendKey) || slices.Contains(a.ReceiveKeys, key) || (keyID != """" && slices.Contains(a.ReceiveKeyIDs, keyID))"%string.
+Definition expected_accept_decisions : list string :=
+  [("!(" ++ accept_cond_text ++ ") & a.AcceptOnlyListedKeys => err")%string;
+   "!a.AcceptOnlyListedKeys => nil"%string;
+   (accept_cond_text ++ " & a.AcceptOnlyListedKeys => nil")%string].
 
 (* the source text of IsAccepted / GetReplaceKey is the one this model was written from *)
 Definition tables_ok : bool :=
   list_eqb String.eqb (map fst c24_replace_arms) expected_arms &&
   list_eqb String.eqb (map snd c24_replace_arms) expected_bodies &&
-  String.eqb c24_accept_cond expected_accept_cond && c24_replace_frame_ok.
+  list_eqb String.eqb c24_accept_decisions expected_accept_decisions && c24_replace_frame_ok.
 
 (* the order of steps the theorems are proved for *)
 Definition scripts_ok : bool :=
